@@ -18,7 +18,105 @@ def run(chk):
     chk.extra["explanation"] = ("finite lattice decided by complete enumeration; every point resolved by the relational "
                                 "model and by the live plum resolver")
     tab.run(chk, FUNCTIONS, mode="C04")
+    nested_roles(chk)
 
     def replayer(ob):
+        if (ob.witness or {}).get("engine") == "ROLES":
+            return roles_replay()
         return tab.replay_point(ob.witness)
     return replayer
+
+
+def roles_replay():
+    """replay on the real code: slogdet / logdet of a Kronecker and a BlockDiag with distinct algorithm classes in the two roles"""
+    import subprocess
+    import json
+    code = r'''
+import json, numpy as np, cola, importlib
+from cola.linalg.decompositions.decompositions import Lanczos
+from cola.linalg.trace.diagonal_estimation import Exact
+L = importlib.import_module("cola.linalg.logdet.logdet")
+rs = np.random.RandomState(0)
+def spd(n):
+    B = rs.randn(n, n); return cola.PSD(cola.ops.Dense(B @ B.T + n * np.eye(n)))
+out = dict(replayed=True, failing_input_found=False)
+for name, op in (("Kronecker", cola.ops.Kronecker(spd(2), spd(3))), ("BlockDiag", cola.ops.BlockDiag(spd(2), spd(3)))):
+    try:
+        s, ld = L.slogdet(op, Lanczos(), Exact())
+        ref = np.linalg.slogdet(np.asarray(op.to_dense()))
+        if abs(float(np.real(ld)) - ref[1]) > 1e-4 * max(1, abs(ref[1])):
+            out = dict(replayed=True, failing_input_found=True, input=f"slogdet({name} of SPD blocks, Lanczos(), Exact())", observed=str(ld), expected=str(ref[1]))
+            break
+    except Exception as e:
+        out = dict(replayed=True, failing_input_found=True, input=f"slogdet({name} of SPD blocks, log_alg=Lanczos(), trace_alg=Exact())", observed=f"{type(e).__name__}: {str(e)[:200]}", expected="a rule is selected for every nested call")
+        break
+print(json.dumps(out))
+'''
+    p = subprocess.run(["/venv/bin/python", "-W", "ignore", "-c", code], cwd="/repo", capture_output=True, text=True, timeout=300)
+    try:
+        return json.loads(p.stdout.strip().splitlines()[-1])
+    except Exception:
+        return dict(replayed=False, failing_input_found=False, error=(p.stdout + p.stderr)[-600:])
+
+
+def nested_roles(chk):
+    """Role preservation of algorithm arguments in the calls a rule makes to generic functions (AST of the live rule bodies): a parameter of the
+    rule that carries the role name p (e.g. log_alg, trace_alg, alg) must not be passed in the position/keyword of a DIFFERENT role of the callee.
+    A swap sends the callee's dispatch to a lattice point outside the admissible set C04 enumerates (e.g. slogdet(A_i, trace_alg, log_alg))."""
+    import ast
+    import inspect
+    import textwrap
+    import time
+    from vcgen.core import DISCHARGED, FAILED, Ob
+    live = tab.live_table()
+    params = {}
+    for nm, F in live.items():
+        try:
+            params[nm] = [p for p in inspect.signature(F._f).parameters]
+        except (TypeError, ValueError, AttributeError):
+            continue
+    role_names = {"alg", "log_alg", "trace_alg"}
+    t0 = time.time()
+    n_calls, bad = 0, []
+    for nm, F in live.items():
+        seen = set()
+        for s in F._resolver.signatures:
+            impl = getattr(s.implementation, "__wrapped__", s.implementation)
+            if id(impl) in seen:
+                continue
+            seen.add(id(impl))
+            try:
+                src = textwrap.dedent(inspect.getsource(impl))
+                tree = ast.parse(src)
+            except (OSError, TypeError, SyntaxError):
+                continue
+            fdef = next((n for n in ast.walk(tree) if isinstance(n, ast.FunctionDef)), None)
+            if fdef is None:
+                continue
+            own = {a.arg for a in fdef.args.args} & role_names
+            if not own:
+                continue
+            for call in ast.walk(fdef):
+                if not isinstance(call, ast.Call):
+                    continue
+                callee = call.func.id if isinstance(call.func, ast.Name) else (call.func.attr if isinstance(call.func, ast.Attribute) else None)
+                if callee not in params:
+                    continue
+                cp = params[callee]
+                for pos, a in enumerate(call.args):
+                    if isinstance(a, ast.Name) and a.id in own and pos < len(cp):
+                        n_calls += 1
+                        if cp[pos] in role_names and cp[pos] != a.id and not (cp[pos] == "alg" or a.id == "alg"):
+                            bad.append(f"{nm}{tuple(getattr(t, '__name__', str(t)) for t in s.types)} line {call.lineno}: `{a.id}` passed as `{cp[pos]}` of {callee}")
+                for kw in call.keywords:
+                    if isinstance(kw.value, ast.Name) and kw.value.id in own and kw.arg in role_names:
+                        n_calls += 1
+                        if kw.arg != kw.value.id and not (kw.arg == "alg" or kw.value.id == "alg"):
+                            bad.append(f"{nm} line {call.lineno}: `{kw.value.id}` passed as `{kw.arg}` of {callee}")
+    ob = Ob(key="C04/nested calls/algorithm arguments keep their role (log_alg, trace_alg) in every call a rule makes to a generic function",
+            fn="all dispatch rules", clause="role preservation", engine="TAB", status=DISCHARGED if not bad else FAILED,
+            backend="AST of the live rule bodies against the callee's parameter names", secs=time.time() - t0,
+            detail="; ".join(bad)[:600] if bad else f"{n_calls} algorithm arguments in nested calls")
+    if bad:
+        ob.witness = dict(engine="ROLES", detail=bad[0])
+    chk.add(ob)
